@@ -3,11 +3,11 @@ from ..core import Script, Rng
 from ..stage import LineStage, replay_line
 from .common import *
 
-ARTEFACTS = ["G1-consts", "G2-rs-portable", "G9-update", "G25-oneshot", "G24-portable-many"]
-EXTRA_PROPS = [("B3.Props.C01T", "B3/Props/C01T.lean"), ("B3.Props.C01O", "B3/Props/C01O.lean"), ("B3.Props.CapT", "B3/Props/CapT.lean")]   # theorems about the code translated from the sources
+ARTEFACTS = ["G1-consts", "G2-rs-portable", "G9-update", "G25-oneshot", "G24-portable-many", "G42-conversions"]
+EXTRA_PROPS = [("B3.Props.C01V", "B3/Props/C01V.lean"), ("B3.Props.C01T", "B3/Props/C01T.lean"), ("B3.Props.C01O", "B3/Props/C01O.lean"), ("B3.Props.CapT", "B3/Props/CapT.lean")]   # theorems about the code translated from the sources
 RULE = ("one op per case: `O hash <mode> pat <len> <seed>` at a forced platform; lengths: every length 0..N exhaustively, "
         "the +-1 lattice around multiples of 64/1024/2^k chunks/4-8-16*j chunks; modes hash/keyed(random key)/derive(contexts "
-        "incl. empty, non-ASCII, >1 chunk); non-trivial = input longer than one block; distinct = distinct op line")
+        "incl. empty, non-ASCII, >1 chunk); keys and inputs are handed over at odd addresses (offset 1..8 in an 8-aligned buffer); non-trivial = input longer than one block; distinct = distinct op line")
 ASSUMPTIONS = ["lengths above what the Lean driver can hold in memory (a few MiB) are covered by the theorem only",
                "SIMD kernels satisfy the kernel contract (C05)"]
 NOT_PROVED = []
